@@ -33,7 +33,12 @@ def prototypes(rng, K, D, real, axis_aligned=False):
     return Q[:K]
 
 
-def labels(rng, K, N, D):
+def labels(rng, K, N, D, unbalanced=False):
+    if unbalanced:
+        # one class as small as the domain allows (D + 2 observations, a few per cent of the data), the others share the rest
+        rest = rng.integers(1, K, size=N - K * (D + 2))
+        lab = np.concatenate([np.full(D + 2, k) for k in range(K)] + [rest])
+        return rng.permutation((lab + int(rng.integers(K))) % K)
     lab = np.concatenate([np.full(D + 2, k) for k in range(K)] + [rng.integers(0, K, size=N - K * (D + 2))])
     return rng.permutation(lab)
 
@@ -113,6 +118,26 @@ def plan(tier, seed):
             cases.append(dict(kind=kind, K=K, D=K, E=K, N=K * (K + 2) + int(rng.integers(0, 8)), lead=lead, blur=0.0 if r % 2 else 0.1, init_dtype='float',
                               pert=float(pick([0.0, 0.0, 1e-9, 1e-6])), axis_aligned=True, iters=int(pick([1, 3, 10])), opts=o, rs=[seed, 3, i]))
             i += 1
+    # strongly unbalanced classes: the smallest class holds D + 2 of 150..250 observations (anything normalised by the number of
+    # observations instead of the class mass, or shared between the classes, starves it)
+    for kind in models.KINDS:
+        for r in range(S(tier, 3, 16) if kind != 'cbmm' else S(tier, 2, 6)):
+            K = 3; D = int(rng.integers(3, 6)) if kind != 'cbmm' else int(pick([3, 4])); E = int(rng.integers(3, 6))
+            lead = [1] if kind in models.INTEGRATION else []
+            o = scen.sample_opts(rng, kind, lead)
+            o.pop('mask', None); o.pop('aligner', None); o.pop('fixed_covariance', None)
+            o['saliency'] = 'none'
+            if 'inline_permutation_alignment' in o:
+                o['inline_permutation_alignment'] = False
+            if kind in models.INTEGRATION:
+                o['spatial_weight'], o['spectral_weight'] = 1.0, 1.0
+            if kind in ('vmfmm', 'vmfcacgmm'):
+                o['min_concentration'] = 1e-10
+            if 'affiliation_eps' in o:
+                o['affiliation_eps'] = pick([0.0, 1e-10])
+            cases.append(dict(kind=kind, K=K, D=D, E=E, N=K * (max(D, E) + 2) + int(rng.integers(150, 250)), lead=lead, blur=0.0, init_dtype='float', unbalanced=True,
+                              pert=float(10 ** rng.uniform(-6 if kind != 'cbmm' else -4, -2.5)), axis_aligned=False, iters=int(pick([3, 5, 10])) if kind != 'cbmm' else int(pick([3, 5])), opts=o, rs=[seed, 33, i]))
+            i += 1
     return cases
 
 
@@ -133,7 +158,7 @@ def build(case):
         y = np.empty((*lead, N, D), dtype=complex)
         for idx in np.ndindex(*lead):
             P[idx] = prototypes(rng, K, D, real=False, axis_aligned=case.get('axis_aligned', False))
-            lab[idx] = labels(rng, K, N, max(D, E) if kind in models.INTEGRATION else D)
+            lab[idx] = labels(rng, K, N, max(D, E) if kind in models.INTEGRATION else D, case.get('unbalanced', False))
             noise = gen.cnormal(rng, (N, D)) * pert
             g = gen.gains(rng, (N, 1), decades=20)
             y[idx] = g * (P[idx][lab[idx]] + noise)
@@ -159,7 +184,7 @@ def build(case):
         A = gen.hpd(rng, D, cond=9.0, real=True)
         for idx in np.ndindex(*lead):
             P[idx] = prototypes(rng, K, D, real=True, axis_aligned=case.get('axis_aligned', False))
-            lab[idx] = labels(rng, K, N, D)
+            lab[idx] = labels(rng, K, N, D, case.get('unbalanced', False))
             noise = rng.standard_normal((N, D)) @ np.linalg.cholesky(A).T / 3 * pert
             y[idx] = scale * (P[idx][lab[idx]] + noise)
             if kind == 'vmfmm':
